@@ -488,6 +488,24 @@ def r9_dispatch_and_explicit_flags(idx, r):
                       msg=f"`{norm(s_.stmt)}` also runs when the blueprint gave explicit flags: the component gets flags the blueprint does not name (DEPLETABLE switches depletion on for it)")
 
 
+def r11_custom_density_dimensions(idx, r):
+    """A custom isotopic density is the density at the INPUT temperature; the component stores number densities for its hot dimensions.  The
+    factor applied to a solid is (1 + dL/L)^-d with d the number of directions in which the stored geometry expands: 2 (the cross-section) when
+    the block heights of the input are already hot, 3 when they are cold and the assembly is expanded axially afterwards.  Both cases must be
+    present, selected by the hot-heights switch, with those exponents."""
+    f = idx.func("armi.reactor.blueprints.componentBlueprint.ComponentBlueprint._setComponentCustomDensity") or idx.method("armi.reactor.blueprints.componentBlueprint.ComponentBlueprint", "_setComponentCustomDensity")
+    if f is None:
+        raise AnchorMissing("ComponentBlueprint._setComponentCustomDensity")
+    pw = [x for x in walk_local(f.node) if isinstance(x, ast.BinOp) and isinstance(x.op, ast.Pow) and isinstance(x.right, ast.Constant) and "dLL" in norm(x.left)]
+    got = {}
+    for x in pw:
+        conds = [(norm(t), p) for t, p in path_conditions(f.node, x) if "inputHeightsConsideredHot" in norm(t)]
+        got[x.right.value] = conds[0][1] if conds else None
+    r.require(got == {2: True, 3: False}, "custom-density:2D-when-heights-are-hot-3D-when-cold", f, node=pw[0] if pw else None,
+              msg=f"exponents of (1 + dL/L) found: {got} (value: under inputHeightsConsideredHot true/false/unconditional); with cold input heights the axial expansion applied later needs the third "
+                  "power, otherwise the built component is (1 + dL/L) too dense")
+
+
 def run(idx, chk):
     chk.explanation = (
         "C18 is a relation between an input document and an object graph; static analysis claims only: (1) each lattice-map class reads and "
@@ -518,3 +536,5 @@ def run(idx, chk):
                  necessary="text maps and explicit lists alike place the specified design at every named location")
     chk.run_rule("R18.10", "isotopes expanded from an element are added to the isotope entries the vector already has", lambda r: r10_expansion_accumulates(idx, r), floor=1,
                  necessary="the composition after isotopic overrides is the one the blueprint text specifies")
+    chk.run_rule("R18.11", "custom densities of solids are reduced by (1+dL/L)^2 for hot input heights and ^3 for cold ones", lambda r: r11_custom_density_dimensions(idx, r), floor=1,
+                 necessary="the built component has the composition (mass) the blueprint text specifies")
